@@ -10,7 +10,10 @@ reg("C07", level="proof", engine="E-TAB+E-SET", technique=TECH_TAB + "; range le
     explanation="BoundSet::new / Bound::cmp / BoundSet::intersect are interpreted from MIR on every (shape, weak "
                 "ordering) class and compared with the cut-point model of interval intersection (emptiness, both cuts, "
                 "provenance of the surviving bounds); Range::intersect is interpreted over interval tokens of a free "
-                "Boolean algebra and must denote (union A) & (union B).",
+                "Boolean algebra and must denote (union A) & (union B). The prerelease clause (`what satisfies both operands "
+                "satisfies the result`) is decided on real ranges over a small universe of release / prerelease versions "
+                "(T-INT-SATISFIES, bounded). When an implementation reads version fields itself, a witness search over "
+                "pairs of concrete intervals runs (a mismatch is reported, none found leaves the check inconclusive).",
     level_text="Proof over a finite abstraction: the interval algebra reads versions only through comparisons (checked "
                "by the interpreter), so all inputs fall into the finitely many (shape, weak-order) classes that are "
                "enumerated completely; the range level is exhaustive for the stated numbers of alternatives.",
@@ -83,7 +86,9 @@ reg("C03", level="proof", engine="E-TAB", technique=TECH_L0, design_ref="DESIGN.
                 "the same tuple). Version comparisons are level-1 primitives (justified by C04); field reads are admitted "
                 "only as same-field equality tests and emptiness of the prerelease list. R-SAT: Range::satisfies is interpreted "
                 "on one or two one-token alternatives (=t, >=t, <t) over every realisable gate valuation of (version, t1, t2) and "
-                "must be the OR of each alternative's own bounds-and-gate answer (a tag in one alternative never opens another).",
+                "must be the OR of each alternative's own bounds-and-gate answer (a tag in one alternative never opens another). "
+                "R-ANY: Range::any() is the single (unbounded, unbounded) alternative. Witness tier on structured versions when "
+                "the gate abstraction does not apply.",
     level_text="Proof over a finite abstraction of the single-interval gate. That the two surviving bounds of an alternative "
                "suffice (npm looks at every comparator) rests on the convexity lemma (DESIGN §5 C03) plus C02/C07; the -0 "
                "upper bounds are part of the C01 desugaring table.",
